@@ -386,12 +386,19 @@ ModelPtr Model::clone() const
 
     m->setEncapsulationId(encapsulationId());
 
+    // Entities that share an import source share the clone of that import source.
+    ImportSourceMap importSources;
     for (size_t index = 0; index < pFunc()->mUnits.size(); ++index) {
-        m->addUnits(units(index)->clone());
+        auto u = units(index);
+        auto uClone = u->clone();
+        if (u->isImport()) {
+            uClone->setImportSource(clonedImportSource(u->importSource(), importSources));
+        }
+        m->addUnits(uClone);
     }
 
     for (size_t index = 0; index < componentCount(); ++index) {
-        m->addComponent(component(index)->clone());
+        m->addComponent(component(index)->pFunc()->clone(importSources));
     }
 
     for (size_t index = 0; index < m->componentCount(); ++index) {
